@@ -22,7 +22,7 @@ if res['frontend_error']:
 for d in res['diagnostics']:
     prim = [s for s in d['spans'] if s['primary']] or d['spans']
     loc = prim[0]['gen_line'] if prim else 0
-    if funcs and fn_at(loc) not in funcs: continue
+    if funcs and fn_at(loc).replace('ghost:','') not in funcs: continue
     print('-- %s [%s] in %s' % (d['message'], d['kind'], fn_at(loc)))
     for s in d['spans']:
         o = s['origin']
